@@ -67,6 +67,9 @@ type Node struct {
 	curHdr  *Block
 }
 
+// runSkipUpgrades: the --unsafe-skip-upgrades heights of the run in progress (one run at a time per process).
+var runSkipUpgrades []int
+
 func NewNode(id int, env *Env, cfg NodeCfg, scratch string) *Node {
 	n := &Node{ID: id, Cfg: cfg, DB: NewSimDB(), Env: env}
 	n.Home = filepath.Join(scratch, fmt.Sprintf("node%d", id))
@@ -141,6 +144,9 @@ func (n *Node) Start() (err error) {
 	appOpts["iavl-disable-fastnode"] = n.Cfg.FastNodeOff
 	appOpts["inter-block-cache"] = n.Cfg.InterBlock
 	appOpts["trace"] = n.ID%2 == 1
+	if len(runSkipUpgrades) > 0 {
+		appOpts["unsafe-skip-upgrades"] = append([]int(nil), runSkipUpgrades...) // the same on every node of the run, as operators agree on it
+	}
 	appOpts["x-crisis-skip-assert-invariants"] = n.ID%3 == 2
 	n.App = app.New(simLogger{n}, n.DB, nil, true, appOpts, n.baseappOpts()...)
 	n.constructing = false
